@@ -928,7 +928,7 @@ func (a *A) headerOffsets(hdr, has *ssa.Function, iterIdx, ia, ie int) (stops []
 				found = true
 				break
 			}
-			if !found {
+			if !found && !(OffsetsFallback != nil && OffsetsFallback(a.P, r, rule, key+"/defined-for-checked-ids")) {
 				r.Unknown(rule, key+"/undefined", a.ipos(rt), "an error-free return yields a constant sections-end offset and is not selected by a predicate on the table id")
 			}
 			continue
